@@ -6,6 +6,8 @@
 import PyGqlModel.Props.C06_names
 import PyGqlModel.Spec.ValidSpecVars
 import PyGqlModel.Lemmas.ValidateVarsIdle
+import PyGqlModel.Lemmas.ValidateVarsChain
+import PyGqlModel.Props.C06_witness
 namespace PyGql.Props.C06
 open PyGql PyGql.Validate PyGql.Validate.Spec
 
@@ -163,5 +165,88 @@ example : ¬ Spec.uniqueVariableNames
   intro h
   have := h _ (List.mem_singleton.mpr rfl) _ _ _ _ _ _ rfl
   revert this; decide
+
+/-! ### the three rules built on `VariablesCollector`
+
+  They hold for the FIXED `_flatten_fragments` (`fx.v4`, ledger V4: transitive closure independent of the order
+  of definitions; refuted for the unfixed variant by `perm_definitions_refuted_unfixed`), the position rule also
+  for the fixed usage recording (`fx.v3`, ledger V3: every usage is kept). `Fixes.all` = /repo HEAD has both. -/
+
+private theorem vcrule_undefined (s : SchemaD) (fx : Fixes) :
+    VCRule s fx .noUndefinedVariables (·.vcUndef) VC.undefinedErrors where
+  init := rfl
+  enter n ti rs := by
+    cases n with
+    | value v => cases v <;> exact ⟨rfl, rfl, rfl⟩
+    | _ => exact ⟨rfl, rfl, rfl⟩
+  leave n ti rs hn := by cases n <;> first | exact ⟨rfl, rfl⟩ | cases hn
+  leaveDoc d ti rs := by simp [leaveRule, RS.errN, Nat.add_comm]
+
+private theorem vcrule_unused (s : SchemaD) (fx : Fixes) :
+    VCRule s fx .noUnusedVariables (·.vcUnused) VC.unusedErrors where
+  init := rfl
+  enter n ti rs := by
+    cases n with
+    | value v => cases v <;> exact ⟨rfl, rfl, rfl⟩
+    | _ => exact ⟨rfl, rfl, rfl⟩
+  leave n ti rs hn := by cases n <;> first | exact ⟨rfl, rfl⟩ | cases hn
+  leaveDoc d ti rs := by simp [leaveRule, RS.errN, Nat.add_comm]
+
+private theorem vcrule_position (s : SchemaD) (fx : Fixes) :
+    VCRule s fx .variablesInAllowedPosition (·.vcPos) (VC.positionErrors s) where
+  init := rfl
+  enter n ti rs := by
+    cases n with
+    | value v => cases v <;> exact ⟨rfl, rfl, rfl⟩
+    | _ => exact ⟨rfl, rfl, rfl⟩
+  leave n ti rs hn := by cases n <;> first | exact ⟨rfl, rfl⟩ | cases hn
+  leaveDoc d ti rs := by simp [leaveRule, RS.errN, Nat.add_comm]
+
+/-- **5.8.3 All variable uses defined**: `NoUndefinedVariablesChecker` run alone reports nothing ⇔ every variable
+    used by an operation - in an argument of its own directives and selections, or in a fragment it spreads
+    directly or TRANSITIVELY - is declared by that operation (operations identified by name, as the code does) -/
+theorem rule_no_undefined_variables_iff (s : SchemaD) (fx : Fixes) (h4 : fx.v4 = true) (d : Doc) :
+    Silent s fx .noUndefinedVariables d ↔ Spec.noUndefinedVariables d := by
+  unfold Silent alone
+  rw [vc_rule_errors (vcrule_undefined s fx) d]
+  exact undefined_final fx h4 s d
+
+/-- **5.8.4 All variables used**: `NoUnusedVariablesChecker` run alone reports nothing ⇔ every variable declared
+    by an operation is used by it, directly or in a (transitively) spread fragment -/
+theorem rule_no_unused_variables_iff (s : SchemaD) (fx : Fixes) (h4 : fx.v4 = true) (d : Doc) :
+    Silent s fx .noUnusedVariables d ↔ Spec.noUnusedVariables d := by
+  unfold Silent alone
+  rw [vc_rule_errors (vcrule_unused s fx) d]
+  exact unused_final fx h4 s d
+
+/-- **5.8.5 All variable usages are allowed** (the rule the code implements): `VariablesInAllowedPositionChecker`
+    run alone reports nothing ⇔ every usage of a variable `$x` by an operation (own or through spread fragments),
+    at a position whose expected input type is known, with `$x` declared by the operation with a known type, passes
+    `Spec.usageAllowed` (`is_subtype`, with the default-value relaxations for a nullable variable at a non-null
+    position) -/
+theorem rule_variables_in_allowed_position_iff (s : SchemaD) (fx : Fixes) (h3 : fx.v3 = true) (h4 : fx.v4 = true)
+    (d : Doc) :
+    Silent s fx .variablesInAllowedPosition d ↔ Spec.variablesInAllowedPosition s d := by
+  unfold Silent alone
+  rw [vc_rule_errors (vcrule_position s fx) d]
+  exact position_final fx h3 h4 s d
+
+/-! non-vacuity (schema and documents of `Props/C06_witness.lean`; `Fixes.all` satisfies the hypotheses):
+    `query($v:Int){...A} fragment C on Query{a(x:$v)} fragment B on Query{...C} fragment A on Query{...B}`
+    uses `$v` only through the spread chain A > B > C -/
+example : Spec.noUndefinedVariables v4a ∧ Spec.noUnusedVariables v4a :=
+  ⟨(rule_no_undefined_variables_iff wSchema Fixes.all rfl v4a).mp (by unfold Silent; decide +kernel),
+   (rule_no_unused_variables_iff wSchema Fixes.all rfl v4a).mp (by unfold Silent; decide +kernel)⟩
+/-- the same document without the variable definition: `$v` is undefined -/
+example : ¬ Spec.noUndefinedVariables ⟨[opV [] 1 [sp "A"], fC, fB, fA]⟩ := fun h =>
+  absurd ((rule_no_undefined_variables_iff wSchema Fixes.all rfl _).mpr h) (by unfold Silent; decide +kernel)
+/-- the chain broken (`A` no longer spreads `B`): `$v` is unused -/
+example : ¬ Spec.noUnusedVariables ⟨[v4ops, fC, fB, fragQ "A" 2 [fld none "o"]]⟩ := fun h =>
+  absurd ((rule_no_unused_variables_iff wSchema Fixes.all rfl _).mpr h) (by unfold Silent; decide +kernel)
+/-- `query($v:Int){ x: a(l:$v) y: a(x:$v) }`: `Int` at the `[Int]` position `l` is not allowed, at `x` it is -/
+example : ¬ Spec.variablesInAllowedPosition wSchema v3a := fun h =>
+  absurd ((rule_variables_in_allowed_position_iff wSchema Fixes.all rfl rfl _).mpr h) (by unfold Silent; decide +kernel)
+example : Spec.variablesInAllowedPosition wSchema ⟨[opV [vInt] 1 [fld (some "y") "a" [argV "x" "v"]]]⟩ :=
+  (rule_variables_in_allowed_position_iff wSchema Fixes.all rfl rfl _).mp (by unfold Silent; decide +kernel)
 
 end PyGql.Props.C06
